@@ -172,6 +172,24 @@ Trim2Fails(e) ==
   \cup (IF Has(e.res, "useless") THEN LET S == ToAut(e.res.useless) IN
        Why(LangEq(S, A), "useless-language") \cup Why(IsTrim(S), "useless-leaves-useless") ELSE {})
 
+(***************************************************************************)
+(* Sub-call answers of the downward inclusion algorithms (guarded hook):   *)
+(* e.res.SA / SB = the operands as the algorithm saw them, e.res.answers = *)
+(* <<p, P, v, abs>>: "L(p) is inside the union of L(q), q in P" was        *)
+(* answered v; a negative answer is always absolute, a positive one only   *)
+(* when abs = 1 (no pending hypotheses).  This is the soundness invariant  *)
+(* of the caches of the Layer-2 model InclDown (nonIncl entries are true   *)
+(* non-inclusions, global inclusion entries true inclusions), evaluated on *)
+(* the real run.  Evidence only - see p_ta.binding_incldown.               *)
+(***************************************************************************)
+MacroIncl(A, p, B, P) == Incl([fin |-> {p}, rules |-> A.rules], [fin |-> P, rules |-> B.rules])
+DownAnsFails(e) ==
+  LET A == ToAut(e.res.SA)  B == ToAut(e.res.SB)
+      bad == {i \in DOMAIN e.res.answers :
+                LET a == e.res.answers[i]  inc == MacroIncl(A, a[1], B, Rng(a[2]))
+                IN (a[3] = 0 /\ inc) \/ (a[3] = 1 /\ a[4] = 1 /\ ~inc)}
+  IN IF bad = {} THEN {} ELSE {"unsound-sub-answer"}
+
 Fails(e) ==
   IF e.outcome # "ok" THEN {"outcome:" \o e.outcome}
   ELSE CASE e.op = "incl"      -> InclFails(e)
@@ -186,6 +204,7 @@ Fails(e) ==
          [] e.op = "reindex"   -> ReindexFails(e)
          [] e.op = "translsym" -> TranslSymFails(e)
          [] e.op = "witness"   -> WitnessFails(e)
+         [] e.op = "incldowntrace" -> DownAnsFails(e)
          [] e.op = "bddincl"   -> BddInclFails(e)
          [] OTHER              -> {"unknown-op"}
 
